@@ -458,9 +458,64 @@ void typedBoundaryCase(Ctx& c, long j)
     c.count("typed_boundary_cases");
 }
 
+// header-value products for segment frames: version x message type x sequence counter x payload length x segment kind,
+// fed (a) to a decoder with no state for the endpoint, (b) after a first segment, (c) after a completed message.
+// Coupled values (e.g. version 1 + message type 0 + counter 1 + a payload shorter than a message header) reach states that
+// one-field-at-a-time mutation does not.
+constexpr long kSegmentProductCases = 3 * 5 * 3;
+void segmentProductCase(Ctx& c, long j)
+{
+    static const uint8_t versions[] = {1, 2, 255};
+    static const uint8_t types[] = {0, 1, 2, 3, 255};
+    uint8_t ver = versions[j % 3];
+    uint8_t mt = types[(j / 3) % 5];
+    int prior = static_cast<int>(j / 15);  // 0 nothing, 1 open first segment, 2 completed message
+    Rng r = c.fixedRng(j, 37);
+    static const uint16_t seqs[] = {0, 1, 2, 255, 256, 65535};
+    static const size_t lens[] = {0, 1, 2, 13, 14, 15, 16, 17, 31, 32, 33};
+    static const uint8_t segs[] = {wire::SEG_FIRST, wire::SEG_MID, wire::SEG_LAST};
+    for (uint16_t seq : seqs)
+        for (size_t len : lens)
+            for (uint8_t seg : segs)
+                for (int vary = 0; vary < 2; ++vary)
+                {
+                    Session s{c};
+                    uint16_t dev = static_cast<uint16_t>(r.below(3));
+                    uint8_t stream = static_cast<uint8_t>(r.below(3));
+                    if (prior >= 1)
+                    {
+                        GMsg f0;
+                        f0.ptype = 0x21;
+                        f0.flags = wire::SEG_FIRST;
+                        f0.payload = r.bytes(r.below(20));
+                        // the pending message has the swept frame's version / type or the default ones
+                        s.feed(buildFrame(vary ? ver : 1, dev, vary ? mt : wire::MT_DATA, stream, static_cast<uint16_t>(seq - 1), {f0}));
+                        if (prior == 2)
+                        {
+                            GMsg l0 = f0;
+                            l0.flags = wire::SEG_LAST;
+                            s.feed(buildFrame(vary ? ver : 1, dev, vary ? mt : wire::MT_DATA, stream, seq, {l0}));
+                        }
+                    }
+                    GMsg m;
+                    m.ts = r.next();
+                    m.ptype = static_cast<uint8_t>(vary ? r.range(1, 8) : 0x21);
+                    m.flags = seg;
+                    m.payload = r.bytes(len);
+                    s.feed(buildFrame(ver, dev, mt, stream, static_cast<uint16_t>(prior == 2 ? seq + 1 : seq), {m}));
+                    // what follows must be handled normally too
+                    GMsg n = m;
+                    n.flags = wire::SEG_LAST;
+                    s.feed(buildFrame(ver, dev, mt, stream, static_cast<uint16_t>((prior == 2 ? seq + 1 : seq) + 1), {n}));
+                    s.finish();
+                }
+    c.sig(mix64(0x5e9a, static_cast<uint64_t>(j)));
+    c.count("segment_header_product_cases");
+}
+
 long c02Count(Ctx& c)
 {
-    return static_cast<long>(canon().size()) * (kFieldsPerFrame + 1) + 256 + kOverflowCases + kTypedBoundaryCases + (c.thorough() ? 250000 : 3000);
+    return static_cast<long>(canon().size()) * (kFieldsPerFrame + 1) + 256 + kOverflowCases + kTypedBoundaryCases + kSegmentProductCases + (c.thorough() ? 250000 : 3000);
 }
 void c02Run(Ctx& c, long idx)
 {
@@ -476,7 +531,10 @@ void c02Run(Ctx& c, long idx)
     idx -= kOverflowCases;
     if (idx < kTypedBoundaryCases)
         return typedBoundaryCase(c, idx);
-    randomHistory(c, idx + nc + 256 + kOverflowCases + kTypedBoundaryCases);
+    idx -= kTypedBoundaryCases;
+    if (idx < kSegmentProductCases)
+        return segmentProductCase(c, idx);
+    randomHistory(c, idx + nc + 256 + kOverflowCases + kTypedBoundaryCases + kSegmentProductCases);
 }
 
 // -------------------------------------------------------------------------------------------------
@@ -761,15 +819,70 @@ void c03Random(Ctx& c, long idx)
         c.sample(std::string("random ") + clsName(cls) + " buffers (40 per case)", 3);
 }
 
+// deterministic: buffers longer than 65535 bytes (legal for direct construction of typed payloads; the 16-bit
+// length of a message does not limit them) with inner lengths that place views near / beyond offset 65535
+void c03Big(Ctx& c, long j)
+{
+    Rng r = c.fixedRng(j, 39);
+    C03 t{c};
+    static const size_t sizes[] = {65535, 65536, 65537, 65541, 65542, 65600, 70000, 131072};
+    size_t n = sizes[j % 8];
+    int cls = static_cast<int>((j / 8) % 3);  // 0 eth, 1 if, 2 cm
+    if (cls == 0)
+    {
+        for (uint32_t dl : {65520u, 65528u, 65529u, 65530u, 65531u, 65532u, 65533u, 65534u, 65535u, 0u, 1u})
+        {
+            Bytes b = r.bytes(n);
+            wire::set16(b.data(), 0x0080);
+            wire::set16(b.data() + 4, static_cast<uint16_t>(dl));
+            t.buffer(CL_ETH, b, 40);
+        }
+    }
+    else if (cls == 1)
+    {
+        for (uint32_t cnt : {0u, 1u, 30000u, 40000u, 65533u, 65534u, 65535u})
+        {
+            wire::If f;
+            f.streamIds = r.bytes(cnt);
+            size_t used = 36 + 2 + cnt + (cnt % 2) + 2;
+            f.vendorData = r.bytes(n > used ? std::min<size_t>(n - used, 65535) : 0);
+            Bytes b = f.serialize();
+            t.buffer(CL_IF, b, 41);
+            if (b.size() > 40)
+            {
+                b.resize(b.size() - 1 - r.below(20));
+                t.buffer(CL_IF, b, 42);
+            }
+        }
+    }
+    else
+    {
+        for (uint32_t slen : {0u, 30000u, 65532u, 65534u})
+        {
+            wire::Cm m;
+            m.description = std::string(slen, 'd');
+            m.serial = std::string(slen > 1000 ? 1000 : slen, 's');
+            m.vendorData = r.bytes(n > 70000 ? 65535 : 20000);
+            Bytes b = m.serialize();
+            t.buffer(CL_CM, b, 43);
+            b.resize(b.size() - 1 - r.below(20));
+            t.buffer(CL_CM, b, 44);
+        }
+    }
+    c.count("buffers_longer_than_65535_cases");
+}
+
 constexpr long kC03DetLengths = 60;  // length indices per class
 long c03Count(Ctx& c)
 {
-    return kC03DetLengths * CL_COUNT + (c.thorough() ? 2100000 : 7000);
+    return kC03DetLengths * CL_COUNT + 24 + (c.thorough() ? 2100000 : 7000);
 }
 void c03Run(Ctx& c, long idx)
 {
     if (idx < kC03DetLengths * CL_COUNT)
         return c03Det(c, idx);
+    if (idx < kC03DetLengths * CL_COUNT + 24)
+        return c03Big(c, idx - kC03DetLengths * CL_COUNT);
     c03Random(c, idx);
 }
 
